@@ -226,9 +226,10 @@ func main() {
 	sum := mcx.Explore(r, scs, mcx.Config{Wall: ev.Pick(r, 4*time.Minute, 30*time.Minute)})
 	mcx.Report(r, scs, sum)
 	r.Set("distinct_nontrivial", int64(len(sum.Outcomes)))
+	sockPass(r)
 	r.Set("rule", "udp server over a harness packet conn: 2-3 well-behaved peers (distinct addresses, incl. same IP / different port) each sending 1-2 confirmable POST requests, an adversary address injecting 1-3 items from {bad version, TKL 9, option nibble 15, truncated message, oversize datagram, response with unknown token, unsolicited ACK, unsolicited RST, valid request, empty datagram}; every interleaving of the arrivals, each followed or not by a settle point; oracle: each well-behaved peer receives exactly the acknowledgements it receives without the adversary, per-peer handler order = arrival order, one logical connection per address pair, Serve still running and a probe answered at the end, Serve returns after Stop; plus discovery and stream-server families; distinct outcome = distinct arrival order; receive-queue=1 variants (a peer sends faster than its handler runs); address-pair family: wildcard listener, all event sequences (depth 4-5) over {datagram from P to X / to Y / without control message / to a multicast group, datagram from Q, NewConn(P), NewConn(P,Y), response from P} against a reference model of the (remote, normalised local) table with wildcard fallback")
 	r.Sample(map[string]any{"scenario": scs[1].Name, "arrival_order": "p0-r0 adv:garbage-badversion p1-r0 adv:garbage-tkl9 p0-r1 p1-r1"})
-	r.Assume("kernel sockets, pion/dtls and crypto/tls are outside the explored code: the UDP listener reads from a harness packet conn injected through the pre-existing packetConn interface and udpConnWriteTo variable; handshakes are environment answers")
+	r.Assume("the listener adapters of net/connUDP.go are exercised over real loopback sockets by the sequential socket pass only (ipv4, two local addresses; ipv6 has a single loopback address here, on which a changed control message cannot be told from an unchanged one)", "kernel sockets, pion/dtls and crypto/tls are outside the explored code: the UDP listener reads from a harness packet conn injected through the pre-existing packetConn interface and udpConnWriteTo variable; handshakes are environment answers")
 	_ = context.Background
 	r.Finish()
 }
